@@ -3,7 +3,8 @@
 import sys
 
 from .. import core, impl, pspace
-from ..refsieve import analyze, lex, parse_generic
+from ..refsieve import analyze, lex, parse_generic, TABLE
+from ..refsieve.validate import VALID
 from ..gen import tokens as T
 
 PROP = "C03"
@@ -89,9 +90,44 @@ TOKENS_NOT_PINNED = ("text: without well-formed multi-line block", "lone CR in m
                      "CR inside hash comment")
 
 
-def compare(text, via_file=False):
+# what a long-lived Parser may have seen last: rejected inside a block / test list / string list, or accepted
+DISTURBERS = [b'if true { if false { keep; } foo; }', b'if true { keep', b'if anyof (true,', b'if header ["a", "b"', b'keep; @',
+              b'require ["fileinto"]; if true { fileinto "x"; ', b'if true { keep; } else {', b'keep;', b'if true { keep; } elsif true { stop; }',
+              b'if not', b'if allof (not exists "a", anyof (true, false)) { keep "x"; }', b'require ["fileinto"]; fileinto :copy "x";']
+
+
+def parse_after(text, prev):
+    p = impl.Parser()
+    impl.parse_outcome(prev, parser=p)
+    return impl.parse_outcome(text, parser=p)
+
+
+def tag_param_faults(forest):
+    out = []
+
+    def walk(node):
+        name, (groups, _pos), tests, children = node
+        e = TABLE.get(name)
+        if e is not None:
+            for tag, param in groups:
+                for sl in e.slots:
+                    if tag in sl.tags:
+                        want = sl.param is not None and (sl.valid_for is None or tag in sl.valid_for)
+                        if want != (param is not None):
+                            out.append((name, tag, want))
+        for t in tests:
+            walk(t)
+        for c in children or ():
+            walk(c)
+
+    for n in forest:
+        walk(n)
+    return out
+
+
+def compare(text, via_file=False, prev=None):
     """Returns (status, bucket, detail). status: 'skip' / 'ok' / 'fail'."""
-    o = parse_via_file(text) if via_file else impl.parse_outcome(text)
+    o = parse_via_file(text) if via_file else parse_after(text, prev) if prev is not None else impl.parse_outcome(text)
     if o.verdict is not True or o.exc is not None:
         return "rejected", None, None, None
     r = analyze(text)
@@ -112,6 +148,14 @@ def compare(text, via_file=False):
     exp = [impl.norm_tree(t) for t in nodes]
     d = first_diff(exp, got)
     if d is None:
+        if r.verdict == VALID:
+            # "every tagged argument with its parameter": on a script of the supported language the frozen
+            # table says which tags carry one; the result must record exactly those as tag + parameter
+            bad = tag_param_faults(impl.forest_of(o.result, grouped=True))
+            if bad:
+                name, tag, want = bad[0]
+                return ("fail", "tag-parameter-%s|at=%s|tag=%s" % ("not-attached" if want else "invented", name.decode(), tag.decode()),
+                        {"text": text, "command": name, "tag": tag, "table_says_tag_takes_parameter": want}, exp)
         return "ok", None, None, exp
     where = d[0].split(" ")[0]
     cmd = where.rsplit(":", 1)[-1].split("/")[0]
@@ -145,7 +189,17 @@ def _one(text, src, col):
     col.case(key=None if src in ("blind", "guided") else text, nontrivial=nt, classes=classes, sample=sample)
     if status == "fail":
         col.fail(bucket, {"text": text}, detail)
-    elif src in ("gen", "layout", "mutant") and (b"\r" in text or col.evals % 7 == 0):
+        return
+    if src in ("gen", "layout", "mutant", "guided") and col.evals % 3 == 0:
+        # the same input on a Parser that has parsed something else before: if accepted, the tree must be as faithful
+        prev = DISTURBERS[(col.evals // 3) % len(DISTURBERS)]
+        st3, b3, d3, _ = compare(text, prev=prev)
+        col.cls("via:lived-in-parser")
+        if st3 == "fail":
+            d3 = dict(d3)
+            d3["parsed_before_on_the_same_Parser"] = prev
+            col.fail("lived-in-parser|" + b3, {"text": text, "prev": prev}, d3)
+    if src in ("gen", "layout", "mutant") and (b"\r" in text or col.evals % 7 == 0):
         # the same input given as a file must yield the same faithful tree
         st2, b2, d2, _ = compare(text, via_file=True)
         col.cls("via:parse_file")
@@ -225,12 +279,15 @@ def replay(case):
         if status == "rejected" and compare(case["text"])[0] != "rejected":
             return [("parse_file|rejects-what-parse-accepts", {"text": case["text"]})]
         return [("parse_file|" + bucket, detail)] if status == "fail" else []
+    if case.get("prev") is not None:
+        status, bucket, detail, _ = compare(case["text"], prev=case["prev"])
+        return [("lived-in-parser|" + bucket, detail)] if status == "fail" else []
     status, bucket, detail, _ = compare(case["text"])
     return [(bucket, detail)] if status == "fail" else []
 
 
 def shrink(case, bucket, budget):
-    if case.get("file") or case.get("big"):
+    if case.get("file") or case.get("big") or case.get("prev") is not None:
         return None
     toks = [t.text + (b"\n" if t.kind == "mls" else b"") for t in lex(case["text"]).tokens]
 
@@ -245,7 +302,7 @@ def shrink(case, bucket, budget):
 def main(tier, seed, t0):
     col = pspace.run(MOD, tier, seed)
     col.merge(core.run_shards(big_worker, [(sz, v) for sz in BIG_SIZES for v in (0, 1, 2)]))
-    need = ["big-input", "via:parse_file", "accepted", "has-block", "list-arg", "tag", "src:gen", "src:guided", "src:mutant", "src:layout"]
+    need = ["big-input", "via:parse_file", "via:lived-in-parser", "accepted", "has-block", "list-arg", "tag", "src:gen", "src:guided", "src:mutant", "src:layout"]
     missing = [c for c in need if not col.classes.get(c)]
     if missing:
         raise core.HarnessError("generator classes empty: %s" % missing)
